@@ -239,6 +239,8 @@ pub struct World {
     pub interactions: usize,
     /// interactions since this life's state machine was built, and whether it exceeded RUNAWAY_INTERACTIONS
     pub life_interactions: usize,
+    /// wait_for calls of the current life
+    pub waits_for: usize,
     pub runaway: bool,
     pub crash_at: Option<usize>,
     pub crashed: bool,
@@ -269,6 +271,7 @@ impl World {
             eager: true,
             interactions: 0,
             life_interactions: 0,
+            waits_for: 0,
             runaway: false,
             ping_storm: false,
             crash_at: None,
@@ -605,6 +608,10 @@ impl Timer for SimTimer {
             let id = g.cur.timers;
             g.cur.timers += 1;
             g.log.push(Op::TimerFor { id, dur: duration });
+            g.waits_for += 1;
+            if g.script.embedder_changes_apps_at_wait == Some(g.waits_for) && embedder_changes_apps() {
+                g.log.push(Op::EmbedderChangedApps);
+            }
             id
         };
         gate(&self.0, GateLabel::TimerFor(id, duration)).boxed()
@@ -748,6 +755,26 @@ impl Storage for SimStorage {
 
 // ------------------------------------------------------------------------------------------
 // AppSet
+
+thread_local! {
+    /// the embedder's handle on the app set it shares with the state machine of the case running on this thread
+    pub static EMBEDDER_APPS: std::cell::RefCell<Option<std::rc::Rc<futures::lock::Mutex<SimAppSet>>>> = const { std::cell::RefCell::new(None) };
+}
+
+/// The embedder changes the shared app set (a channel switch: new cohort hint, another day number) - called by the
+/// simulated timer when the scripted wait is armed, i.e. while the state machine is between two steps of its flow.
+fn embedder_changes_apps() -> bool {
+    EMBEDDER_APPS.with(|e| {
+        let e = e.borrow();
+        let Some(shared) = e.as_ref() else { return false };
+        let Some(mut g) = shared.try_lock() else { return false };
+        for a in g.apps.iter_mut() {
+            a.cohort.hint = Some("switched-by-embedder".to_string());
+            a.user_counting = UserCounting::ClientRegulatedByDate(Some(4242));
+        }
+        true
+    })
+}
 
 pub struct SimAppSet {
     pub apps: Vec<App>,
@@ -1244,6 +1271,13 @@ impl HttpRequest for SimHttp {
                 if let Ok(hv) = http::HeaderValue::from_bytes(e.as_bytes()) {
                     b = b.header(http::header::ETAG, hv);
                 }
+            }
+            // other, unauthenticated headers a reply may carry (they must not change how it is treated)
+            match (g.script.content_type_mask >> (2 * (n % 16))) & 3 {
+                1 => b = b.header(http::header::CONTENT_TYPE, "text/html; charset=utf-8"),
+                2 => b = b.header(http::header::CONTENT_TYPE, "application/json"),
+                3 => b = b.header(http::header::CONTENT_TYPE, "TEXT/HTML").header(http::header::CONTENT_LENGTH, "0").header("x-cache", "HIT"),
+                _ => {}
             }
             g.log.push(Op::HttpDone {
                 n,
